@@ -101,13 +101,27 @@ func vecSearchOpen(seg segment.Segment, field string, q []float32, k int64, exce
 		}
 		return nil, fmt.Errorf("InterpretVectorIndex(%q): %w", field, err)
 	}
+	if except != nil && !except.Equals(exBefore) {
+		vi.Close()
+		return nil, fmt.Errorf("INPUT-MODIFIED: the caller's exclusion bitmap changed from %v to %v", exBefore, except)
+	}
+	// the handle was given the exclusions as they were when it was opened; the caller is free to
+	// reuse its bitmap object afterwards (here: for the complement of what it held)
+	if except != nil {
+		scribble := roaring.New()
+		scribble.AddRange(0, 64)
+		scribble.AndNot(exBefore)
+		except.Clear()
+		except.Or(scribble)
+	}
 	out, err := searchHandle(vi, q, k, filter, eligible)
 	vi.Close()
+	if except != nil {
+		except.Clear()
+		except.Or(exBefore)
+	}
 	if err != nil {
 		return nil, err
-	}
-	if except != nil && !except.Equals(exBefore) {
-		return nil, fmt.Errorf("INPUT-MODIFIED: the caller's exclusion bitmap changed from %v to %v", exBefore, except)
 	}
 	if !reflect.DeepEqual(qBefore, append([]float32(nil), q...)) {
 		return nil, fmt.Errorf("INPUT-MODIFIED: the caller's query vector changed from %v to %v", qBefore, q)
